@@ -134,6 +134,24 @@ impl Ctx {
 
 thread_local! {
     static LAST_PANIC: RefCell<Option<String>> = RefCell::new(None);
+    static PHASE: std::cell::Cell<&'static str> = std::cell::Cell::new("");
+}
+
+/// Reference code marks which step it is in, so that a panic can be attributed
+/// (construction / forward+backward / optimizer step).
+pub fn set_phase(phase: &'static str) {
+    PHASE.with(|p| p.set(phase));
+}
+
+pub fn phase() -> &'static str {
+    PHASE.with(|p| p.get())
+}
+
+/// Panic messages of combinations the library itself documents as unsupported.
+pub fn documented_unsupported(msg: &str) -> bool {
+    ["Invalid mul.", "Invalid sub.", "not implemented", "not supported", "not yet implemented", "Unsupported layer type", "Invalid add."]
+        .iter()
+        .any(|m| msg.contains(m))
 }
 
 /// Install a silent panic hook that remembers the message (and location) per thread.
